@@ -293,6 +293,35 @@ func driverCtrl(c *Ctx) {
 			ci++
 		}
 	}
+	// (c-bis) request constructors given more than four system bytes (the tail of a received frame with a body, an
+	// 8-byte counter passed whole): refused, or a 14-byte message like any other that decodes to itself
+	for _, kind := range []string{"select.req", "deselect.req", "linktest.req", "reject.req", "separate.req"} {
+		for _, n := range []int{5, 6, 8, 12} {
+			if c.want(ci) {
+				g := c.gen(ci)
+				buf := make([]byte, 10+n+g.pick(6))
+				g.r.Read(buf)
+				sys := buf[10 : 10+n]
+				sid, code := uint16(g.pick(65536)), byte(g.pick(256))
+				var m ast.HSMSMessage
+				refused, _ := try(func() { m = mkCtrl(kind, sid, sys, code) })
+				ev := J{"ev": "sysover", "kind": kind, "sid": int(sid), "code": int(code), "sys": bytesJ(sys), "refused": refused,
+					"bytes": []int{}, "type": "", "ok": false, "same": false}
+				if !refused {
+					b := m.ToBytes()
+					ev["bytes"], ev["type"] = bytesJ(b), typeOf(m)
+					d := decode(b, poisoned)
+					ev["ok"] = d.ok
+					if d.ok {
+						ev["same"] = string(d.m.ToBytes()) == string(b) && typeOf(d.m) == typeOf(m)
+					}
+				}
+				c.emit(ci, ev)
+				c.count("ctrl.sysover")
+			}
+			ci++
+		}
+	}
 	// (c') pairs of different messages of one kind with equal 32-bit checksums (CRC-32 IEEE and Castagnoli, FNV-1 and
 	// FNV-1a, Adler-32; of the header and of the whole frame), decoded one after the other: the second is itself
 	hashes := []func([]byte) uint32{
